@@ -160,3 +160,17 @@ Theorem c06_snapshot_install_before_O40_refuted :
            (notification_key 1) <> None.
 Proof. exact snapshot_install_before_O40_refuted. Qed.
 Print Assumptions c06_snapshot_install_before_O40_refuted.
+
+(* Reads are not log entries.  For every schedule of one replica - log entries interleaved in any way with
+   reads of any kind (Get x5 comparison types with or without the value, List, RangeScan, notification reads,
+   ReadCommitOffset, ReadTerm, secondary-index Get/List/RangeScan) that only this replica serves - the replica
+   ends in exactly the state of a replica that applied the log alone, gave the same responses to the writes,
+   and answered every read from the state "log prefix applied so far".  (In the model a read has no state
+   output at all: [db_read : state -> read_req -> read_ans]; what ties this to the code is the harness route
+   reads-interleaved, which compares full dumps with a replica that applied the log alone.) *)
+Theorem c06_reads_do_not_change_state : forall cb cfg ops st,
+  fst (fst (run_ops_db cb cfg st ops)) = apply_log_db cb cfg st (writes_of ops) /\
+  snd (fst (run_ops_db cb cfg st ops)) = log_responses_db cb cfg st (writes_of ops) /\
+  snd (run_ops_db cb cfg st ops) = answers_of_log_alone (process_write cb cfg) st ops.
+Proof. exact reads_do_not_change_state_db. Qed.
+Print Assumptions c06_reads_do_not_change_state.
